@@ -42,7 +42,7 @@ def gen(rng, tier):
         n = rng.choice([65536, 100000])
     serials = [rng.randrange(1, 900000) for _ in range(n)]
     box = rng.choice([50.0, 500.0, 2000.0])
-    header = {'BoxSize': box, 'VelZSpace_to_kms': rng.choice([777.0, 3200.0]), 'ppd': float(rng.choice([64, 1000])),
+    header = {'BoxSize': box, 'VelZSpace_to_kms': rng.choice([777.0, 3200.0]), 'ppd': rng.choice([64.0, 1000.0, 1728 ** (1 / 3), 216 ** (1 / 3), 1000 ** (1 / 3), 343 ** (1 / 3)]),
               'SimName': 'SimWorld', 'Redshift': 0.5}
     if rng.random() < 0.3:
         header.update({'OutputType': 'LightCone', 'SimSet': rng.choice(['AbacusSummit', 'Other']),
@@ -140,7 +140,7 @@ def run(case):
     boot.register_asdf_extension()
     from abacusnbody.data.read_abacus import read_asdf
     kind, hdr, knobs = case['kind'], case['header'], case['knobs']
-    box, vz, ppd = hdr['BoxSize'], hdr['VelZSpace_to_kms'], hdr['ppd']
+    box, vz, ppd = hdr['BoxSize'], hdr['VelZSpace_to_kms'], int(round(hdr['ppd']))   # particles per dimension is an integer
     serials = case['serials']
     rv, packed = W.particle_arrays(serials)
     data = {}
